@@ -70,6 +70,7 @@ struct Section {
 struct FnSpec {
     name: String,
     sections: Vec<Section>,
+    optional: bool, // `//@fn? NAME`: if the member is absent its directives are skipped (e.g. a forwarding member removed so that the trait default applies)
 }
 
 #[derive(Debug)]
@@ -167,7 +168,8 @@ fn parse_unit(path: &str, unit: &mut Unit) {
                     match kw {
                         "rules" => cur.as_mut().unwrap().rules.extend(arg.split_whitespace().map(String::from)),
                         "keep" => cur.as_mut().unwrap().keep = Some(arg.split_whitespace().map(String::from).collect()),
-                        "fn" => cur.as_mut().unwrap().fns.push(FnSpec { name: arg.to_string(), sections: vec![] }),
+                        "fn" => cur.as_mut().unwrap().fns.push(FnSpec { name: arg.to_string(), sections: vec![], optional: false }),
+                        "fn?" => cur.as_mut().unwrap().fns.push(FnSpec { name: arg.to_string(), sections: vec![], optional: true }),
                         "ret" | "sig" | "param" | "loop" | "closure" | "before" | "after" | "inside-start" | "inside-end" | "wrap" | "replace"
                         | "delete" | "before-each" | "after-each" | "header" | "arg-each" | "splice" | "members" | "wrap-each" | "replace-each" | "delete-each" => {
                             cur_sec = Some(Section { kind: kw.to_string(), arg: arg.to_string(), line0: ln + 1, file: path.to_string(), text: String::new() });
@@ -602,6 +604,28 @@ fn rename_idents(text: &str, map: &[(String, String)]) -> String {
     out
 }
 
+/// In a directive argument (`[RULE] KIND [NAME][#k] [| KIND NAME ..]`) only the names of VARIABLE anchors follow a
+/// renamed local: `let x`, `assign x`, `path x`. Field, method, callee, macro and struct names are not variables.
+fn rename_anchor_arg(arg: &str, map: &[(String, String)]) -> String {
+    let mut out: Vec<String> = vec![];
+    let mut var_kind = false;
+    for tok in arg.split(' ') {
+        if var_kind && !tok.is_empty() {
+            let (name, ord) = match tok.find('#') { Some(p) => (&tok[..p], &tok[p..]), None => (tok, "") };
+            match map.iter().find(|(o, _)| o == name) {
+                Some((_, n)) => out.push(format!("{n}{ord}")),
+                None => out.push(tok.to_string()),
+            }
+            var_kind = false;
+            continue;
+        }
+        let kind = tok.split('#').next().unwrap_or("");
+        var_kind = matches!(kind, "let" | "assign" | "path") && !tok.contains('#');
+        out.push(tok.to_string());
+    }
+    out.join(" ")
+}
+
 fn has_ident(text: &str, name: &str) -> bool {
     let probe = vec![(name.to_string(), "\u{1}".to_string())];
     rename_idents(text, &probe).contains('\u{1}')
@@ -827,7 +851,7 @@ impl<'a> Gen<'a> {
         }
         let key = format!("{}|{}|bindings", self.key_prefix, fname);
         let joined = b.0.join(",");
-        let mut out = FnSpec { name: spec.name.clone(), sections: spec.sections.clone() };
+        let mut out = FnSpec { name: spec.name.clone(), sections: spec.sections.clone(), optional: spec.optional };
         if let Some((old, n, ..)) = self.recorded.get(&key).cloned() {
             let olds: Vec<&str> = if old.is_empty() { vec![] } else { old.split(',').collect() };
             if old != joined && n == b.0.len() && olds.len() == b.0.len() {
@@ -860,7 +884,7 @@ impl<'a> Gen<'a> {
                 }
                 if ok && !map.is_empty() {
                     for s in out.sections.iter_mut() {
-                        s.arg = rename_idents(&s.arg, &map);
+                        s.arg = rename_anchor_arg(&s.arg, &map);
                         s.text = rename_idents(&s.text, &map);
                     }
                     let what = map.iter().filter(|(o, _)| olds.contains(&o.as_str())).map(|(o, n)| format!("{o} -> {n}")).collect::<Vec<_>>().join(", ");
@@ -1665,6 +1689,10 @@ fn main() {
                                 }
                                 for s in &ex.fns {
                                     if !s.name.is_empty() && !im.items.iter().any(|ii| matches!(ii, syn::ImplItem::Fn(f) if f.sig.ident == s.name)) {
+                                        if s.optional {
+                                            g.log.push(json!({"rule": "optional-member-absent", "file": ex.file, "line": g.line_of(br(im.span()).start), "old": s.name, "note": "member absent: its directives are skipped, the trait default (if any) applies and is judged by the contracts around it"}));
+                                            continue;
+                                        }
                                         undecided(&format!("{ctx}: lost member fn {}", s.name));
                                     }
                                 }
